@@ -346,6 +346,11 @@ func parseAnsiCode(s string) (int, string) {
 				return -1, remaining
 			}
 			code = code*10 + int(ch)
+			if code > 0xffffff {
+				// No parameter is that large. Saturate so that it cannot
+				// wrap around to a small, valid one.
+				code = 0xffffff
+			}
 		}
 		return code, remaining
 	}
